@@ -64,6 +64,32 @@ fn c07_fuzzy_equals_definition() {
     kani::cover!(!e && (a - b).abs() <= EPS);
 }
 
+//@ ob: id=C07/K/fuzzy_equals_definition_one_operand kind=K-full fns=fuzzy_equals also=C09 bound="left operand: all doubles; right operand: 0, 1, -2.5, 1e6, 0.1"
+//@ desc: quick-tier form of fuzzy_equals_definition: with one operand ranging over all doubles and the other over five concrete magnitudes, fuzzy_equals is exactly `a == b || (|a-b| <= 1e-11 && round(a*1e11) == round(b*1e11))`, in both argument orders
+#[kani::proof]
+#[kani::stub(epsilon, epsilon_const)]
+#[kani::stub(inverse_epsilon, inverse_epsilon_const)]
+fn c07_fuzzy_equals_definition_one_operand() {
+    let a: f64 = kani::any();
+    let which: u8 = kani::any();
+    kani::assume(which < 5);
+    let b = match which {
+        0 => 0.0,
+        1 => 1.0,
+        2 => -2.5,
+        3 => 1e6,
+        _ => 0.1,
+    };
+    let spec = a == b || ((a - b).abs() <= EPS && (a * INV).round() == (b * INV).round());
+    assert!(fuzzy_equals(a, b) == spec, "C07/K/fuzzy_equals_definition_one_operand");
+    assert!(fuzzy_equals(b, a) == spec, "C07/K/fuzzy_equals_definition_one_operand: reversed");
+    if (a - b).abs() > EPS {
+        assert!(!fuzzy_equals(a, b), "C07/K/fuzzy_equals_definition_one_operand: beyond tolerance");
+    }
+    kani::cover!(spec && a != b);
+    kani::cover!(!spec && (a - b).abs() <= EPS);
+}
+
 //@ ob: id=C07/K/fuzzy_equals_symmetric kind=K-contract tier=thorough fns=fuzzy_equals also=C09
 //@ desc: fuzzy_equals(a,b) == fuzzy_equals(b,a) for all doubles
 #[kani::proof]
